@@ -473,4 +473,88 @@ theorem supportedD_datumN (σ : Store) (n : Nat) :
   | zero => exact supportedD_step σ _ _ (fun x h => by simp at h)
   | succ n ih => exact supportedD_step σ _ _ ih
 
+/-! ## the shape of printed lists, for arbitrary values -/
+
+/-- every string preceded by one space -/
+def spaced : List String → String
+  | [] => ""
+  | x :: xs => " " ++ x ++ spaced xs
+
+theorem intercalate_cons_spaced (a : String) (l : List String) :
+    " ".intercalate (a :: l) = a ++ spaced l := by
+  induction l generalizing a with
+  | nil => simp [spaced]
+  | cons b l ih => rw [String.intercalate_cons_cons, ih]; simp [spaced, String.append_assoc]
+
+/-- what `displayTail` prints after the last element: nothing for `()`, ` . t` otherwise -/
+def endText (σ : Store) (f : Nat) (t : Value) : String :=
+  match t with
+  | .nil => ""
+  | t => " . " ++ Prim.display σ f t
+
+theorem displayTail_consTail (σ : Store) (f : Nat) (xs : List Value) (t : Value)
+    (hx : ∀ x ∈ xs, Enough σ f x) (ht : t = .nil ∨ (isAtomic t = true ∧ Enough σ f t)) :
+    ∀ F, f + xs.length < F →
+      Prim.displayTail σ F (consTail xs t)
+        = spaced (xs.map (Prim.display σ f)) ++ endText σ f t := by
+  induction xs with
+  | nil =>
+    intro F hF
+    obtain ⟨g, rfl⟩ : ∃ g, F = g + 1 := ⟨F - 1, by omega⟩
+    rcases ht with rfl | ⟨ha, he⟩
+    · simp [consTail, displayTail_nil, endText, spaced]
+    · have : endText σ f t = " . " ++ Prim.display σ f t := by
+        cases t <;> first | rfl | simp [isAtomic] at ha
+      simp only [List.length_nil, Nat.add_zero] at hF
+      simp [consTail, displayTail_atomic _ _ _ ha, this, spaced, he g (by omega)]
+  | cons x xs ih =>
+    intro F hF
+    obtain ⟨g, rfl⟩ : ∃ g, F = g + 1 := ⟨F - 1, by omega⟩
+    simp only [List.length_cons] at hF
+    have h1 := hx x (by simp) g (by omega)
+    have h2 := ih (fun y hy => hx y (by simp [hy])) g (by omega)
+    simp only [consTail, List.foldr_cons] at h2 ⊢
+    rw [displayTail_pair, h1, h2]
+    simp [spaced, String.append_assoc]
+
+theorem display_consTail (σ : Store) (f : Nat) (x : Value) (xs : List Value) (t : Value)
+    (hx : ∀ y ∈ x :: xs, Enough σ f y) (ht : t = .nil ∨ (isAtomic t = true ∧ Enough σ f t))
+    (F : Nat) (hF : f + (x :: xs).length < F) :
+    Prim.display σ F (consTail (x :: xs) t)
+      = "(" ++ " ".intercalate ((x :: xs).map (Prim.display σ f)) ++ endText σ f t ++ ")" := by
+  obtain ⟨g, rfl⟩ : ∃ g, F = g + 1 := ⟨F - 1, by omega⟩
+  simp only [List.length_cons] at hF
+  have h1 := hx x (by simp) g (by omega)
+  have h2 := displayTail_consTail σ f xs t (fun y hy => hx y (by simp [hy])) ht g (by omega)
+  simp only [consTail, List.foldr_cons] at h2 ⊢
+  rw [display_pair, h1, h2, List.map_cons, intercalate_cons_spaced]
+  simp [String.append_assoc]
+
+/-! ## fuel -/
+
+theorem enough_of_readableN (σ : Store) (n : Nat) (v : Value) (h : readableN σ n v = true) :
+    Enough σ (datumN σ n v).size v := by
+  intro f' hf
+  apply String.toList_injective
+  rw [display_datumN σ n v f' h hf, display_datumN σ n v _ h (Nat.le_refl _)]
+
+/-! ## a sample: `(1 -1/2 #\a (x . y) #(#t ()))` with its vector in cell 1 of the store -/
+namespace Samples
+
+def store : Store :=
+  { vecs := #[{ mutable := true, items := [.sym "unrelated"] },
+              { mutable := true, items := [.bool true, .nil] }] }
+
+def value : Value :=
+  Value.ofList [.num (.int 1), .num (.rat (-1) 2), .char 'a', .pair (.sym "x") (.sym "y"), .vec 1]
+
+def datum : Datum :=
+  Datum.ofList none [.prim (.int 1) none, .prim (.rat (-1) 2) none, .prim (.chr 'a') none,
+    .pair (.sym "x" none) (.sym "y" none) none,
+    .vec [.prim (.bool true) none, .nil none] none]
+
+def text : String := "(1 -1/2 #\\a (x . y) #(#t ()))"
+
+end Samples
+
 end Ruschm.Print
